@@ -272,6 +272,15 @@ def optimizer_table():
             # common subexpressions
             prog("", [decl("a", add(var("qi"), I(1))), set_("qi", I(7)), decl("b", add(var("qi"), I(1))), ret(arr([var("a"), var("b")]))], q, ["opt", "cse", "operand-reassigned-between"]),
             prog("", [decl("a", mul(var("qi"), I(3))), decl("b", mul(var("qi"), I(3))), ret(add(var("a"), var("b")))], q, ["opt", "cse", "plain"]),
+            # the same operands in the other order are another expression when + joins strings or arrays
+            prog("", [decl("s", add(lit(vstr("<")), calln("toString", var("qi")))), decl("t", add(var("s"), lit(vstr(">")))), decl("p", add(var("s"), var("t"))), decl("q", add(var("t"), var("s"))), ret(arr([var("p"), var("q")]))], q, ["opt", "cse", "operands-swapped", "strings"]),
+            prog("", [decl("s", arr([var("qi")])), decl("t", arr([var("qi"), I(1)])), decl("p", add(var("s"), var("t"))), decl("q", add(var("t"), var("s"))), ret(arr([var("p"), var("q")]))], q, ["opt", "cse", "operands-swapped", "arrays"]),
+            prog("", [decl("s", mul(var("qi"), I(2))), decl("t", add(var("qi"), I(1))), decl("p", bin_("-", var("s"), var("t"))), decl("q", bin_("-", var("t"), var("s"))), decl("m", mul(var("s"), var("t"))), decl("n", mul(var("t"), var("s"))), ret(arr([var("p"), var("q"), var("m"), var("n")]))], q, ["opt", "cse", "operands-swapped", "numbers"]),
+            # names of which one is the beginning of another (x, xy): a remembered expression is keyed by its text
+            prog("", [decl("x", mul(var("qi"), I(3))), decl("xy", add(var("qi"), I(10))), decl("t", add(var("xy"), var("x"))), set_("x", add(var("x"), I(2))), decl("u", add(var("xy"), var("x"))), ret(arr([var("t"), var("u")]))], q, ["opt", "cse", "operand-name-is-a-prefix-of-another", "shorter-reassigned"]),
+            prog("", [decl("x", mul(var("qi"), I(3))), decl("xy", add(var("qi"), I(10))), set_("x", add(var("xy"), var("x"))), decl("u", add(var("xy"), var("x"))), ret(arr([var("x"), var("u")]))], q, ["opt", "cse", "operand-name-is-a-prefix-of-another", "holder-is-an-operand"]),
+            prog("", [decl("x", mul(var("qi"), I(3))), decl("xy", add(var("qi"), I(10))), decl("t", mul(var("x"), var("xy"))), set_("xy", add(var("xy"), I(1))), decl("u", mul(var("x"), var("xy"))), ret(arr([var("t"), var("u")]))], q, ["opt", "cse", "operand-name-is-a-prefix-of-another", "longer-reassigned"]),
+            prog("", [decl("a", mul(var("qi"), I(5))), decl("ab", add(var("qi"), I(3))), decl("abc", mul(var("qi"), I(4))), decl("t", add(add(var("abc"), var("ab")), var("a"))), set_("ab", I(30)), decl("u", add(add(var("abc"), var("ab")), var("a"))), set_("a", I(100)), decl("w", add(add(var("abc"), var("ab")), var("a"))), ret(arr([var("t"), var("u"), var("w")]))], q, ["opt", "cse", "operand-name-is-a-prefix-of-another", "three-names"]),
             prog("", [decl("a", mul(var("qi"), I(3))), if_(lt(var("qi"), I(0)), [set_("a", I(0))]), decl("b", mul(var("qi"), I(3))), ret(arr([var("a"), var("b")]))], q, ["opt", "cse", "first-holder-changed-in-branch"]),
             # loop-invariant motion
             prog("", [decl("i", I(0)), decl("s", I(0)), while_(lt(var("i"), I(3)), [decl("t", mul(var("qi"), I(2))), set_("s", add(var("s"), var("t"))), set_("i", add(var("i"), I(1)))]), ret(var("s"))], q, ["opt", "licm", "plain"]),
